@@ -745,3 +745,457 @@ def features(w):
     if not w.resets and not w.refused:
         f.append('no-reset')
     return f
+
+
+# ======================================================================
+# Socks: byte sequences into the real SSHSOCKSForwarder via forward_socks
+# ======================================================================
+
+import ipaddress
+
+SOCKS_REPLY = {'authok': b'\x05\x00', 's4ok': bytes((0, 0x5a)) + bytes(6)}
+
+
+def socks_expected(st):
+    """Observable outcome predicted by a Socks.tla state."""
+    replies = b''
+    for r in st['replies']:
+        if r == 's5ok':
+            n = 4 if st['atyp'] == 1 else 16
+            replies += b'\x05\x00\x00' + bytes((st['atyp'],)) + bytes(n + 2)
+        else:
+            replies += SOCKS_REPLY[r]
+    if st['st'] == 'connected':
+        h = st['host']
+        raw = bytes(h['b'])
+        if h['kind'] == 'name':
+            host = raw.decode('utf-8')
+        else:
+            host = str(ipaddress.ip_address(raw))
+        connect = (host, st['port'])
+    else:
+        connect = None
+    return {'replies': replies, 'connect': connect,
+            'out': bytes(st['out']), 'closed': bool(st['closed'])}
+
+
+class SocksWorld:
+    """One SSH connection with a forward_socks listener; every case is a
+    fresh local connection to the listener."""
+
+    def __init__(self):
+        world = self
+        self.loop = loop = new_loop()
+        self.requests = []          # (dest_host, dest_port) seen by the server
+        self.sessions = []          # bytearray per accepted connection
+        k = keys()
+
+        class Server(asyncssh.SSHServer):
+            def begin_auth(self, username):
+                return False
+
+            def connection_requested(self, dest_host, dest_port, orig_host,
+                                     orig_port):
+                world.requests.append((dest_host, dest_port))
+                buf = bytearray()
+                world.sessions.append(buf)
+
+                async def handler(reader, writer):
+                    try:
+                        while True:
+                            data = await reader.read(65536)
+                            if not data:
+                                break
+                            buf.extend(data)
+                    except Exception:   # pylint: disable=broad-except
+                        pass
+                    writer.close()
+                return handler
+
+        async def go():
+            self.acceptor = await asyncssh.listen(
+                '127.0.0.1', 2222, server_factory=Server,
+                server_host_keys=[k['host']])
+            self.conn = await asyncssh.connect(
+                '127.0.0.1', 2222, known_hosts=None, config=None,
+                client_keys=None)
+            self.lsn = await self.conn.forward_socks('127.0.0.1', 0)
+        loop.run_until_complete(go())
+        loop.run_until_idle()
+        self.addr = ('127.0.0.1', self.lsn.get_port())
+
+    def run_case(self, chunks):
+        """Feed the chunks (one data_received call each) to a new SOCKS
+        connection; return what could be observed."""
+        loop = self.loop
+        app = App(self, 'L', True)
+        n_req, n_exc = len(self.requests), len(loop.exceptions)
+        n_sess = len(self.sessions)
+
+        async def cl():
+            await loop.create_connection(lambda: app, *self.addr)
+        loop.run_until_complete(cl())
+        loop.run_until_idle()
+        ft = app.t.peer
+        ft.auto = False             # exactly one data_received per chunk
+        for c in chunks:
+            if not c:
+                continue
+            app.t.write(c)
+            if ft.closed:
+                break
+            # from a loop callback, like a selector's read event: whatever
+            # data_received raises reaches the loop's exception handler
+            loop.run_callback(ft.deliver)
+        ft.auto = True
+        loop.run_until_idle()
+        fwd_closed = ft.closed or ft.closing
+        obs = {'replies': bytes(app.data),
+               'connect': (self.requests[n_req] if len(self.requests) > n_req
+                           else None),
+               'n_connect': len(self.requests) - n_req,
+               'closed': bool(fwd_closed),
+               'saw_close': app.eof_seen or app.lost,
+               'exceptions': [repr(c.get('exception') or c.get('message'))
+                              for c in loop.exceptions[n_exc:]]}
+        # end the case: the client goes away; everything of it must go too
+        if not app.lost:
+            app.t.close()
+        loop.run_until_idle()
+        obs['out'] = bytes(self.sessions[n_sess]) \
+            if len(self.sessions) > n_sess else b''
+        obs['leak'] = len([t for t in loop.net.transports
+                           if isinstance(t.protocol, SSHForwarder)
+                           and not t.closed])
+        obs['exceptions'] += [repr(c.get('exception') or c.get('message'))
+                              for c in loop.exceptions[n_exc +
+                                                       len(obs['exceptions']):]]
+        return obs
+
+    def stop(self):
+        try:
+            self.conn.abort()
+            self.acceptor.close()
+            self.loop.run_until_idle()
+        except BaseException:           # pylint: disable=broad-except
+            pass
+        close_loop(self.loop)
+
+
+def socks_input(steps):
+    """bytes of a Socks.tla behaviour: steps = [(lbl, state)]"""
+    data = bytearray()
+    for lbl, _ in steps:
+        data += bytes((lbl[1],)) * lbl[2]
+    return bytes(data)
+
+
+def socks_segmentations(data, thorough=False):
+    """whole, split at every position (capped), byte at a time"""
+    segs = [('whole', [data])]
+    n = len(data)
+    cuts = range(1, n) if n <= 40 or thorough else \
+        list(range(1, 30)) + list(range(n - 10, n))
+    for i in cuts:
+        segs.append((f'split@{i}', [data[:i], data[i:]]))
+    if n <= 64:
+        segs.append(('bytes', [data[i:i + 1] for i in range(n)]))
+    return segs
+
+
+def socks_judge(obs, want, overlong_field):
+    """-> (l1 list of (clause, detail), divergence or None).
+    L1 (property): a connection is requested only for, and exactly to, the
+    destination of a complete request; after the forwarder closed the
+    connection nothing further happens; nothing escapes into the loop."""
+    l1 = []
+    if obs['exceptions']:
+        l1.append(('ParseAfterClose' if obs['closed'] else 'Exception',
+                   f'exception reached the event loop: {obs["exceptions"][0]}'))
+    if obs['n_connect'] > 1:
+        l1.append(('ConnectOnce', 'more than one connection requested'))
+    if obs['connect'] is not None and want['connect'] is None and \
+            not overlong_field:
+        l1.append(('ConnectOnlyIfAsked',
+                   f'connection to {obs["connect"]} requested but the input '
+                   'is not a complete valid request'))
+    if obs['connect'] is not None and want['connect'] is not None and \
+            tuple(obs['connect']) != tuple(want['connect']):
+        l1.append(('Destination', f'requested {obs["connect"]}, client asked '
+                   f'for {want["connect"]}'))
+    if want['connect'] is not None and obs['connect'] is not None and \
+            obs['out'] != want['out']:
+        l1.append(('RelayFIFO', 'bytes following the request were not '
+                   f'relayed intact: {obs["out"][:20]!r} != {want["out"][:20]!r}'))
+    if obs['leak']:
+        l1.append(('Released', 'relayed sockets left after the SOCKS client '
+                   'went away'))
+    div = None
+    if not l1:
+        for key in ('replies', 'connect', 'closed'):
+            if overlong_field and key in ('connect', 'closed', 'replies'):
+                continue
+            if obs[key] != want[key]:
+                div = f'{key}: code={obs[key]!r} model={want[key]!r}'
+                break
+    return l1, div
+
+
+# ======================================================================
+# ForwardPerm: one row of the decision table against a real server
+# ======================================================================
+
+PERM_DESTS = {'permitted': (R_HOST, R_PORT), 'otherhost': ('127.0.0.2', R_PORT),
+              'otherport': (R_HOST, R_PORT + 1), 'alias': ('desthost', R_PORT)}
+KEY_OPTS = {'none': '', 'no-port-forwarding': 'no-port-forwarding',
+            'permitopen-hp': f'permitopen="{R_HOST}:{R_PORT}"',
+            'permitopen-hstar': f'permitopen="{R_HOST}:*"'}
+_creds = {}
+
+
+def credentials(key_opt, cert):
+    """(authorized_keys object for the server, client_keys for the client)"""
+    ck = (key_opt, cert)
+    if ck not in _creds:
+        k = keys()
+        opts = KEY_OPTS[key_opt]
+        if cert == 'none':
+            pub = k['user'].export_public_key('openssh').decode().strip()
+            line = (opts + ' ' + pub).strip()
+            client_keys = [k['user']]
+        else:
+            pub = k['ca'].export_public_key('openssh').decode().strip()
+            line = 'cert-authority' + (',' + opts if opts else '') + ' ' + pub
+            c = k['ca'].generate_user_certificate(
+                k['user'], 'c20-user', principals=['user'],
+                permit_port_forwarding=(cert == 'with'))
+            client_keys = [(k['user'], c)]
+        _creds[ck] = (line, client_keys)
+    line, client_keys = _creds[ck]
+    return asyncssh.import_authorized_keys(line + '\n'), client_keys
+
+
+class EchoR(asyncio.Protocol):
+    """destination: answers every chunk with pong:<chunk>"""
+
+    def __init__(self, hits, name):
+        self.hits, self.name = hits, name
+
+    def connection_made(self, transport):
+        self.t = transport
+        self.hits.append(self.name)
+
+    def data_received(self, data):
+        self.t.write(b'pong:' + data)
+
+
+def perm_case(row, cancel=False):
+    """Materialise one ForwardPerm row. Returns observations:
+    served, dest_hits, app_calls, listener_after_cancel, left (after the
+    connection ended), auth_ok, detail."""
+    loop = new_loop()
+    loop.net.dns['desthost'] = R_HOST
+    obs = {'served': False, 'dest_hits': [], 'app_calls': 0, 'detail': '',
+           'listener_after_cancel': None, 'left': [], 'auth_ok': False,
+           'exceptions': []}
+    req, app_ans = row['req'], row['app']
+    akeys, client_keys = credentials(row['key'], row['cert'])
+    k = keys()
+    state = {}
+
+    async def handler(reader, writer):
+        try:
+            while True:
+                data = await reader.read(65536)
+                if not data:
+                    break
+                writer.write(b'handler:' + data)
+        except Exception:               # pylint: disable=broad-except
+            pass
+        writer.close()
+
+    class Server(asyncssh.SSHServer):
+        def connection_made(self, conn):
+            state['sconn'] = conn
+
+        def begin_auth(self, username):
+            return True
+
+        def _open(self):
+            obs['app_calls'] += 1
+            if app_ans == 'false':
+                return False
+            if app_ans == 'true':
+                return True
+            if app_ans == 'raises':
+                raise asyncssh.ChannelOpenError(
+                    asyncssh.OPEN_CONNECT_FAILED, 'application says no')
+            return handler
+
+        def connection_requested(self, dest_host, dest_port, orig_host,
+                                 orig_port):
+            return self._open()
+
+        def unix_connection_requested(self, dest_path):
+            return self._open()
+
+        def server_requested(self, listen_host, listen_port):
+            obs['app_calls'] += 1
+            if app_ans == 'false':
+                return False
+            if app_ans == 'true':
+                return True
+            return lambda orig_host, orig_port: True      # accept handler
+
+        def unix_server_requested(self, listen_path):
+            obs['app_calls'] += 1
+            if app_ans == 'false':
+                return False
+            if app_ans == 'true':
+                return True
+            return state['sconn'].forward_local_path(listen_path, listen_path)
+
+    async def talk_stream(reader, writer, want_prefix):
+        writer.write(b'ping')
+        data = await reader.read(100)
+        writer.close()
+        return data
+
+    async def talk_socket(addr, preamble=(), skip=0):
+        """connect a plain socket, optional SOCKS preamble, then ping"""
+        app = App(obs_world, 'L', True)
+        if addr[0] == 'unix':
+            await loop.create_unix_connection(lambda: app, addr[1])
+        else:
+            await loop.create_connection(lambda: app, *addr)
+        for m in preamble:
+            app.t.write(m)
+            for _ in range(6):
+                await asyncio.sleep(0)
+        app.t.write(b'ping')
+        return app
+
+    class _W:                           # minimal "world" for App
+        fin_after_eof = False
+    obs_world = _W()
+
+    async def go():
+        acceptor = await asyncssh.listen(
+            '127.0.0.1', 2222, server_factory=Server,
+            server_host_keys=[k['host']], authorized_client_keys=akeys)
+        state['acceptor'] = acceptor
+        servers = []
+        for name, addr in PERM_DESTS.items():
+            if name == 'alias':
+                continue
+            servers.append(await loop.create_server(
+                lambda n=name: EchoR(obs['dest_hits'], n), *addr))
+        servers.append(await loop.create_unix_server(
+            lambda: EchoR(obs['dest_hits'], 'unix'), R_PATH))
+        state['servers'] = servers
+        try:
+            conn = await asyncssh.connect(
+                '127.0.0.1', 2222, known_hosts=None, config=None,
+                username='user', client_keys=client_keys,
+                agent_path=None, password=None)
+        except asyncssh.PermissionDenied as exc:
+            obs['detail'] = f'authentication failed: {exc}'
+            return
+        state['conn'] = conn
+        obs['auth_ok'] = True
+        dest = PERM_DESTS[row['dest']]
+        try:
+            if req == 'direct-tcpip':
+                reader, writer = await conn.open_connection(*dest)
+                data = await talk_stream(reader, writer, b'')
+                obs['served'] = data in (b'pong:ping', b'handler:ping')
+                obs['detail'] = repr(data)
+            elif req == 'direct-streamlocal':
+                reader, writer = await conn.open_unix_connection(R_PATH)
+                data = await talk_stream(reader, writer, b'')
+                obs['served'] = data in (b'pong:ping', b'handler:ping')
+                obs['detail'] = repr(data)
+            elif req == 'socks':
+                lsn = await conn.forward_socks('127.0.0.1', 0)
+                state['client_lsn'] = ('127.0.0.1', lsn.get_port())
+                kind = 'socks5h' if row['dest'] == 'alias' else 'socks5'
+                ip = bytes(int(x) for x in dest[0].split('.')) \
+                    if kind == 'socks5' else b''
+                p = bytes((dest[1] >> 8, dest[1] & 255))
+                if kind == 'socks5':
+                    msgs = [b'\x05\x01\x00', b'\x05\x01\x00\x01' + ip + p]
+                else:
+                    h = dest[0].encode()
+                    msgs = [b'\x05\x01\x00',
+                            b'\x05\x01\x00\x03' + bytes((len(h),)) + h + p]
+                state['L'] = await talk_socket(state['client_lsn'], msgs)
+            elif req == 'tcpip-forward':
+                lsn = await conn.forward_remote_port('127.0.0.1', 0,
+                                                     R_HOST, R_PORT)
+                state['lsn'] = lsn
+                state['server_lsn'] = ('127.0.0.1', lsn.get_port())
+                state['L'] = await talk_socket(state['server_lsn'])
+            elif req == 'streamlocal-forward':
+                lsn = await conn.forward_remote_path(L_PATH, R_PATH)
+                state['lsn'] = lsn
+                state['server_lsn'] = ('unix', L_PATH)
+                state['L'] = await talk_socket(state['server_lsn'])
+        except asyncssh.ChannelOpenError as exc:
+            obs['detail'] = f'ChannelOpenError {exc.code}: {exc.reason}'
+        except asyncssh.ChannelListenError as exc:
+            obs['detail'] = f'ChannelListenError: {exc}'
+
+    try:
+        loop.run_until_complete(go())
+        loop.run_until_idle()
+        app = state.get('L')
+        if app is not None:
+            data = bytes(app.data)
+            if req == 'socks':
+                # the SOCKS replies come first (sent before the open)
+                data = data[2 + 10:]
+            obs['served'] = data in (b'pong:ping', b'handler:ping')
+            obs['detail'] = repr(data) + (' closed' if app.eof_seen or
+                                          app.lost else '')
+            if not app.lost:
+                app.t.close()
+            loop.run_until_idle()
+        if 'server_lsn' in state:
+            obs['listener_created'] = state['server_lsn'] in loop.net.listeners
+            if cancel:
+                async def do_cancel():
+                    state['lsn'].close()
+                    await state['lsn'].wait_closed()
+                loop.run_until_complete(do_cancel())
+                loop.run_until_idle()
+                obs['listener_after_cancel'] = \
+                    state['server_lsn'] in loop.net.listeners
+        # the connection ends
+        if 'conn' in state:
+            state['conn'].close()
+            loop.run_until_idle()
+        harness_owned = {('127.0.0.1', 2222), ('unix', R_PATH)} | \
+            {a for n, a in PERM_DESTS.items() if n != 'alias'}
+        obs['left'] = [str(a) for a in loop.net.listeners
+                       if a not in harness_owned]
+        obs['left'] += [f'relayed socket {t.id}' for t in loop.net.transports
+                        if isinstance(t.protocol, SSHForwarder)
+                        and not t.closed]
+        obs['exceptions'] = [repr(c.get('exception') or c.get('message'))
+                             for c in loop.exceptions]
+    except Deadlock as exc:
+        obs['detail'] += f' DEADLOCK {exc}'
+        obs['deadlock'] = True
+    finally:
+        try:
+            for s in state.get('servers', []):
+                s.close()
+            if 'acceptor' in state:
+                state['acceptor'].close()
+            if 'conn' in state:
+                state['conn'].abort()
+            loop.run_until_idle()
+        except BaseException:           # pylint: disable=broad-except
+            pass
+        close_loop(loop)
+    return obs
